@@ -18,8 +18,12 @@ Why ==
   ELSE IF Ev.reached /\ ~MayReach(e, cr) THEN "handler reached although no alternative of the effective requirement is satisfied"
   ELSE IF Ev.reached /\ e # <<>> /\ Ev.deny THEN "handler reached although the authorizer denies"
   ELSE IF Ev.reached /\ Ev.principal \notin AllowedPrincipals(e, cr) THEN "principal is not the one returned by an authenticator of a satisfied alternative"
-  ELSE IF ~Ev.reached /\ MustReach(e, cr) /\ (~Ev.deny \/ e = <<>>) THEN "request satisfying the requirement does not reach the handler"
-  ELSE IF ~Ev.reached /\ Ev.status \notin {401, 403} THEN "rejected request is not answered with 401/403"
+  ELSE IF ~Ev.reached /\ Ev.valid /\ MustReach(e, cr) /\ (~Ev.deny \/ e = <<>>) THEN "request satisfying the requirement does not reach the handler"
+  \* Ev.valid: the request satisfies the declared parameters.  An invalid request may be refused for that
+  \* reason (422 ...) only if authentication and authorization could let it through: a request that
+  \* satisfies no alternative gets 401/403 whatever else is wrong with it
+  ELSE IF ~Ev.reached /\ Ev.status \notin {401, 403} /\ ~(~Ev.valid /\ MayReach(e, cr) /\ (~Ev.deny \/ e = <<>>))
+    THEN "rejected request is not answered with 401/403"
   ELSE "ok"
 
 TInit == l = 1 /\ nrej = 0 /\ req = <<>> /\ creds = <<>> /\ pc = "" /\ ai = 0 /\ si = 0 /\ lastErr = FALSE /\ anon = FALSE /\ result = "" /\ princ = ""
